@@ -141,6 +141,20 @@ def apply_body_rules(src, lo, hi, ed, rules):
             rules["R2"] = rules.get("R2", 0) + 1
             i += 5
             continue
+        # R2 (error text): `<ident>.to_string()` - the Display text of an error value
+        if t.kind == IDENT and src.is_p(i + 1, ".") and src.is_id(i + 2, "to_string") and src.is_p(i + 3, "(") \
+                and src.match[i + 3] == i + 4 and not src.is_p(i - 1, ".") and not src.is_p(i - 1, ":"):
+            ed.replace(t.start, s[i + 4].end, "vx_string()", 5)
+            rules["R2"] = rules.get("R2", 0) + 1
+            i += 5
+            continue
+        # R2 (error construction): io::Error::new(kind, text) -> vx_io_error_new(kind, text)
+        if t.kind == IDENT and t.text == "io" and src.is_p(i + 1, ":") and src.is_p(i + 2, ":") and src.is_id(i + 3, "Error") \
+                and src.is_p(i + 4, ":") and src.is_p(i + 5, ":") and src.is_id(i + 6, "new") and src.is_p(i + 7, "("):
+            ed.replace(t.start, s[i + 6].end, "vx_io_error_new", 5)
+            rules["R2"] = rules.get("R2", 0) + 1
+            i += 7
+            continue
         # R5: assert!(cond, "msg", ...)  /  debug_assert!
         if t.kind == IDENT and t.text in ("assert", "debug_assert") and src.is_p(i + 1, "!") \
                 and src.is_p(i + 2, "("):
